@@ -104,7 +104,8 @@ def run(prog, tier, res):
             ftabs.append([[a, v] for a, v in accept.ret_table(prog, c[1][8:])])
     cmp(res, R3, MAIN, "event-filter", ftabs, spec["event_filter"], "event filter")
     entries = [(bb, t) for bb, t in b.calls() if short(cname(t)).endswith("::entry")]
-    extends = [(bb, t) for bb, t in b.calls() if short(cname(t)) == "Extend::extend"]
+    # in-order append of a whole slice: extend(data[.iter()[.copied()]]) or extend_from_slice(data)
+    extends = [(bb, t) for bb, t in b.calls() if short(cname(t)) in ("Extend::extend", "Vec::<T, A>::extend_from_slice")]
     ok = False
     why = "no `map.entry(board).or_default().extend(data)` found"
     if len(entries) == 1 and len(extends) == 1:
@@ -130,8 +131,9 @@ def run(prog, tier, res):
                 nm = unmut(src[2][0])
                 if nm[0] == "call" and short(nm[1]).endswith("::name"):
                     bank = unmut(nm[2][0])
-        data_ok = data[0] == "call" and short(data[1]) == "<impl [T]>::iter" and unmut(data[2][0])[0] == "call" and \
-            short(unmut(data[2][0])[1]).endswith("::data_slice") and bank is not None and same(unmut(unmut(data[2][0])[2][0]), bank)
+        while data[0] == "call" and short(data[1]) in ("<impl [T]>::iter", "Iterator::copied", "Iterator::cloned", "IntoIterator::into_iter") and data[2]:
+            data = unmut(data[2][0])
+        data_ok = data[0] == "call" and short(data[1]).endswith("::data_slice") and bank is not None and same(unmut(data[2][0]), bank)
         recv_ok = recv[0] == "call" and short(recv[1]).endswith("::or_default") and unmut(recv[2][0])[0] == "call" and unmut(recv[2][0])[3] == ebb
         atoms = [atom_str(a) for (d, rel, vals) in an.atoms_at(xbb) for a in sy.atoms(d, rel, vals)]
         guard_ok = any(a.startswith(CBN + "(") and a.endswith(" is Ok") for a in atoms)
